@@ -27,12 +27,8 @@ CLAIMED = {
              "classes occur. Tied by correspondence over field perturbations and per-commit PRAGMA values of WAL histories.",
         design="§9 C17", note=NOTE + "header difference classification across commits is modelled and tied by correspondence (its theorems are partial).", technique=T),
     "C02": dict(
-        text="Theorems on the WAL model: grouping of valid frames into commit records (nothing lost, each record ends in its only commit "
-             "frame), version count = commit frames, page->frame and page->version indices answer every lookup with the latest frame / "
-             "record (also with duplicate pages in one transaction), frame image offset = file-format offset, stale-salt frames never "
-             "served, accepted logs end in a commit frame. Row-level claims by vh.dump correspondence + per-commit SQLite snapshots, an "
-             "independent checksum-verifying WAL reader for page images, and SQLite's own view of the pair for the newest version.",
-        design="§9 C02", note=NOTE + "partial: the composition 'version k rows = SQLite rows after commit k' is decided by correspondence + snapshots, not by one end-to-end theorem; WAL checksums are not read by the tool.", technique=T),
+        text="Theorems on the WAL model: grouping of valid frames into commit records (nothing lost, each record ends in its only commit frame), version count = commit frames, page->frame and page->version indices answer every lookup with the latest frame / record (also with duplicate pages in one transaction), frame image offset = file-format offset, where each version reads each page from (wal_page_source, history_indices), stale-salt frames never served, accepted logs end in a commit frame. Row-level claims by vh.dump correspondence + per-commit SQLite snapshots, an independent checksum-verifying WAL reader for page images, and SQLite's own view of the pair for the newest version.",
+        design="§9 C02", note=NOTE + "partial: the composition 'version k rows = SQLite rows after commit k' is decided by correspondence + snapshots; WAL checksums are not read by the tool.", technique=T),
     "C05": dict(
         text="Theorems (Properties/C05): for EVERY cut offset n of the WAL file, the version history of the cut-off log (when accepted) is an initial segment, in commit order, of the history of the whole log, with equal Version records and equal version interfaces as functions (truncated_history_prefix / _pointwise / _take / _eq_restricted); a cut inside the 32-byte header is refused; every version k>=1 of an accepted cut-off history is the commit record of the k-th transaction of the whole log, closed by its commit frame, all of whose frames lie wholly below the cut (versions_committed); cuts right after a commit frame are accepted (non-vacuity). Frame-level half in Properties/C02. Tied by vh.dump correspondence over truncation offsets, per-commit snapshots and SQLite's recovery of the same pair.",
         design="§9 C02/C05", note=NOTE + "truncation only (torn writes inside a frame are outside the quantifier); frame checksums are not verified by the tool nor the model: 'equals what SQLite recovers' is decided by the recovery oracle in the correspondence stage, not by a theorem.", technique=T),
@@ -75,25 +71,14 @@ CLAIMED = {
              "over the option lattice in fresh subprocesses; exported CSV/SQLite rows compared with API iteration.",
         design="§9 C12", note=NOTE + "partial: row values are C11; text/XLSX compared at entry level; multi-input runs at validation level; open findings C12-F1..F5.", technique="Lean 4 theorems over hand-written CLI model + AST-translated option table (translator options.py) + subprocess correspondence"),
     "C18": dict(
-        text="Theorems bounding the model's loops independently of damaged size fields: freeblock walk ends within 65537 steps with strictly "
-             "ascending offsets, accepted overflow chains visit pairwise distinct pages and never exhaust their fuel, the expected-overflow count "
-             "is a closed form; recursion through child / trunk pointers is bounded by the recursion-limit parameter (RecursionError). Tied by "
-             "db.dump correspondence on targeted corruptions of every link / count / size field, pairs, truncations and bit flips, each parsed "
-             "in a worker under a time limit (max(10 s, 200 x clean parse)) and an address-space limit.",
-        design="§9 C18", note=NOTE + "partial: seconds and RSS are measured, not proved; cost of recursion-limit-bounded walks (cyclic freelist trunks / child pointers) is large but finite; WAL / signature / carving stages are not yet in the damaged-input pipeline.", technique=T + "; targeted byte-level corruption with resource-limited workers"),
+        text="Theorems bounding the model's loops independently of damaged size fields: freeblock walk ends within 65537 steps with strictly ascending offsets, accepted overflow chains visit pairwise distinct pages and never exhaust their fuel, the expected-overflow count is a closed form, carving completes on arbitrary bytes (C08.completes), the journal carver never reads past the end; recursion through child / trunk pointers is bounded by the recursion-limit parameter (RecursionError). Tied by db.dump / vh.dump correspondence on targeted corruptions of every link / count / size field (cycles among later freeblocks, overflow cycles with a consistent huge size per cell kind), pairs, truncations, bit flips and damaged WALs, each run through parsing, census, version history, signatures, carving and iteration in a worker under a time limit (max(10 s, 200 x clean run)) and an address-space limit.",
+        design="§9 C18", note=NOTE + 'partial: seconds and RSS are measured, not proved; cost of recursion-limit-bounded walks (cyclic freelist trunks / child pointers) is large but finite; the signature / carving stages on damaged input are covered by the resource oracle, the correspondence covers parsing and version history.', technique=T + "; targeted byte-level corruption with resource-limited workers"),
     "C08": dict(
-        text="Theorems over the model of SignatureCarver / CarvedRecord / the iterator's carving fold: offset arithmetic and backing of every "
-             "carved cell by the region's bytes, pairwise distinct digests over a history; 'always completes', 'freeblock offset' and 'digest "
-             "identifies the record' are refuted by Lean witnesses replayed on the code, 'completes' holds under named hypotheses. Tied by "
-             "carve.record / region / table / iter / journal correspondence against the real carver on generated regions and SQLite-written "
-             "databases, WALs and journals.",
-        design="§9 C08", note=NOTE + "partial: 'inside free space of a page of that table' by oracle (independent page reader) only; sizes < 2^53; Python re validated, not verified; open findings C08-xx.", technique=T),
+        text="Theorems over the model of SignatureCarver / CarvedRecord / the iterator's carving fold (Properties/C08): carving COMPLETES on every region (unallocated area, freelist page, journal image, freeblock; every signature incl. one-column tables) - result or, beyond 2^53 bytes, the model's own outside-model mark, no exception class escapes; every carved cell's file offset and bytes are backed by the region (freeblocks through content_start_offset); the digest is the record's bytes; pairwise distinct digests over a history (no re-report); the journal carver never reads past the end. Former escapes are kept as fixed_* witnesses. Tied by carve.record / region / table / iter / journal correspondence against the real carver on generated regions and SQLite-written databases, WALs and journals.",
+        design="§9 C08", note=NOTE + "partial: 'inside free space of a page of that table, never inside a live cell' by oracle (independent page reader) only; sizes < 2^53; Python re validated, not verified.", technique=T),
     "C09": dict(
-        text="Theorems: recall of an intact record at record and region level, first-match scan lemma, a generated pattern's match is exactly the "
-             "serial-type header (self-delimiting varints), first column recovered from the freeblock size or a single possible type; recall "
-             "through the iterator refuted (digest collision) by a Lean witness. Tied by carving correspondence; deletion grid over page size x "
-             "column shape x position x residue location with an independent before/after byte reader.",
-        design="§9 C09", note=NOTE + "partial: recall through the freeblock/partial pattern at region level is decided by the grid, not by a theorem; open findings C09-xx.", technique=T),
+        text="Theorems (Properties/C09): recall of an intact record at record and region level without assuming that carving completed (recall_region_total), first-match scan lemma, a generated pattern's match is exactly the serial-type header (self-delimiting varints), first column recovered from the freeblock size or a single possible type, digests separate rows at different places; recall through the iterator's digest dictionary holds for pairwise distinct digests and is refuted in general by Lean witnesses (identical bytes; the one-column collision C09-05). Tied by carving correspondence; deletion grid over page size x column shape x position x residue location (freeblock, unallocated, freelist page, WAL frames, journals incl. pages cut off the end of the file) with an independent before/after byte reader.",
+        design="§9 C09", note=NOTE + 'partial: recall through the freeblock/partial pattern at region level is decided by the grid, not by a theorem; open findings C09-02/03/05.', technique=T),
     "C06": dict(
         text="Theorems on the page-layout check (Properties/C06: stable sort, telescoping identity, every SQLite-well-formed layout accepted with fragment total = header count, accepted layouts tile [content offset, page end) without overlap or gap, strict checking irrelevant on accepted pages, freeblock walk bounded and ascending) and the page round trip (Properties/C01Tree: a page laid out as Spec.PageLaidOut — header, pointer array, cells with SQLite's 4-byte minimum allocation, freeblock chain, <= 60 fragment bytes — is parsed to exactly its cells and freeblocks). Spec.PageLaidOut is run (executable form, proved equivalent) on the pages SQLite wrote. Page census tied by full-dump correspondence and SQLite's dbstat / page_count / freelist_count / integrity_check, per version for WAL histories.",
         design="§9 C06", note=NOTE + 'census theorem (each page classified exactly once over a whole database) is partial: decided by correspondence + dbstat, not by a Lean theorem over a whole-file specification.', technique=T),
